@@ -96,6 +96,71 @@ func TestSvSched(t *testing.T) {
 	loadImages(t, out, opt.ImgDir, wd)
 }
 
+// TestSvWindow: the window runs (window.go). Same environment; SVSCHED_IN is a window scenario file, SVSCHED_SKIP counts scenarios.
+// windows.txt gets one line per scenario: W <id> <executions> <1 if the bounded search was exhausted> <bound> <cap>.
+func TestSvWindow(t *testing.T) {
+	slog.SetDefault(slog.New(slog.NewTextHandler(io.Discard, nil)))
+	out := os.Getenv("SVSCHED_OUT")
+	in := os.Getenv("SVSCHED_IN")
+	if out == "" || in == "" {
+		t.Skip("SVSCHED_IN / SVSCHED_OUT not set")
+	}
+	opt := Options{CloserOrder: []string{"prepare", "net", "server"}, XSplit: -1, ImgDir: filepath.Join(out, "images"), StateDir: filepath.Join(out, "state"), Window: true}
+	if v := os.Getenv("SVSCHED_CLOSER_ORDER"); v != "" {
+		opt.CloserOrder = strings.Split(v, ",")
+	}
+	os.MkdirAll(opt.ImgDir, 0o755)
+	os.MkdirAll(opt.StateDir, 0o755)
+	f, err := os.Open(in)
+	if err != nil {
+		t.Fatal(err)
+	}
+	sc := bufio.NewScanner(f)
+	sc.Buffer(make([]byte, 1<<20), 1<<26)
+	wss := ParseWindows(sc)
+	f.Close()
+	skip, _ := strconv.Atoi(os.Getenv("SVSCHED_SKIP"))
+	wdms, _ := strconv.Atoi(os.Getenv("SVSCHED_WATCHDOG_MS"))
+	if wdms <= 0 {
+		wdms = 2000
+	}
+	of, _ := os.OpenFile(filepath.Join(out, "observed.txt"), os.O_CREATE|os.O_WRONLY|os.O_APPEND, 0o644)
+	pf, _ := os.OpenFile(filepath.Join(out, "progress.txt"), os.O_CREATE|os.O_WRONLY|os.O_APPEND, 0o644)
+	sf, _ := os.OpenFile(filepath.Join(out, "windows.txt"), os.O_CREATE|os.O_WRONLY|os.O_APPEND, 0o644)
+	defer of.Close()
+	defer pf.Close()
+	defer sf.Close()
+	w := bufio.NewWriter(of)
+	wd := vhook.StartWatchdog(time.Duration(wdms)*time.Millisecond, vhook.ExitOnHang(pf, filepath.Join(out, "stacks.txt")))
+	defer wd.Stop()
+	reached := map[string]int{}
+	if rb, err := os.ReadFile(filepath.Join(out, "reached.json")); err == nil {
+		json.Unmarshal(rb, &reached)
+	}
+	images := map[string]bool{}
+	if es, err := os.ReadDir(opt.ImgDir); err == nil {
+		for _, e := range es {
+			images[strings.TrimSuffix(e.Name(), ".bin")] = true
+		}
+	}
+	seq := skip * 100000
+	for i, ws := range wss {
+		if i < skip {
+			continue
+		}
+		fmt.Fprintf(pf, "S %s\n", ws.ID)
+		wd.Arm()
+		n := ExploreWindow(t, ws, w, wd, opt, reached, images, &seq)
+		wd.Disarm()
+		w.Flush()
+		fmt.Fprintf(pf, "D %s\n", ws.ID)
+		fmt.Fprintf(sf, "W %s %d %d %d %d\n", ws.ID, n, b2i(n < ws.Cap), ws.Bound, ws.Cap)
+		rb, _ := json.Marshal(reached)
+		os.WriteFile(filepath.Join(out, "reached.json"), rb, 0o644)
+	}
+	loadImages(t, out, opt.ImgDir, wd)
+}
+
 // loadImages: every crash image captured so far (and not yet tested) is decoded by the real store and loaded by
 // server.New on a copy, inside a bubble (the loaded holds get lease timers). One line per image in images.txt.
 func loadImages(t *testing.T, out, dir string, wd *vhook.Watchdog) {
